@@ -365,6 +365,8 @@ func (e *Exec) ghostDefault(k string, other Val) (Val, bool) {
 		return Val{T: False}, true
 	case k == "heapver":
 		return other, true
+	case strings.HasPrefix(k, "g:"):
+		return Val{T: e.sc.Const("ghost0:"+strings.TrimPrefix(k, "g:"), other.T.Sort), GT: other.GT}, true
 	case k == "alloc":
 		return Val{T: e.sc.Const("alloc0", SInt)}, true
 	case k == "closed":
@@ -414,6 +416,13 @@ func (e *Exec) mapHeap(m *types.Map) (string, string) {
 func (e *Exec) heapRead(st *State, name, sort string) Term {
 	if st.specHeaps != nil {
 		return e.specHeapRead(st, name, sort)
+	}
+	if h, ok := st.heaps[name]; ok && len(h.S) > 1500 && e.binders == 0 {
+		// keep heap terms small: name long store chains
+		nm := e.sc.Fresh("hp", h.Sort)
+		e.sc.Assert(Eq(nm, h))
+		st.heaps[name] = nm
+		return nm
 	}
 	if h, ok := st.heaps[name]; ok {
 		return h
@@ -973,6 +982,13 @@ func (e *Exec) updatePath(st *State, base Val, path []int, v Val, pos token.Pos)
 	}
 	idx := path[0]
 	f := stt.Field(idx)
+	// a field update mentions the old value once per field: name large values first or terms grow
+	// exponentially with the number of updates
+	if len(base.T.S) > 120 && e.binders == 0 {
+		nm := e.sc.Fresh("sv", base.T.Sort)
+		e.sc.Assert(Eq(nm, base.T))
+		base = Val{T: nm, GT: base.GT, Orig: base.Orig}
+	}
 	if len(path) == 1 {
 		v = e.convertTo(st, v, f.Type())
 		return Val{T: si.set(base.T, idx, v.T), GT: base.GT}
